@@ -40,7 +40,7 @@ CONSTANTS MaxSize,     \* interval sizes 0..MaxSize
           MaxAligned,  \* at most this many blocks carry an alignment
           ItemMode,    \* "none" | "dense" | "sparse"
           MaxItems,    \* sparse: at most this many annotated offsets
-          Addrs,       \* subset of {"none", "4096"}: interval without / with an address
+          Addrs,       \* subset of {"none", "4096", "4100"} (4100: a start address that is no multiple of the alignments): interval without / with an address
           Grows,       \* bytes appended to the first interval between split and join
           Lates,       \* BOOLEAN: model an annotation added to the last interval between split and join
           AddAligns,   \* alignments a rewrite may add (to a block of a later interval) between split and join
@@ -639,7 +639,7 @@ vars == <<lay, phase, cur, mid, nopk, exc, added, priv>>
 Init ==
   /\ \E n \in 0..MaxSize : \E i \in InitSet(n) : \E ad \in Addrs : \E q \in GeoSeqs(n) :
        \E kd \in KindSeqs(Len(q)) : \E al \in AlignSeqs(Len(q)) : \E its \in ItemSets(n) :
-          lay = MkLayout(n, i, IF ad = "none" THEN -1 ELSE 4096, q, kd, al, its)
+          lay = MkLayout(n, i, IF ad = "none" THEN -1 ELSE IF ad = "4100" THEN 4100 ELSE 4096, q, kd, al, its)
   /\ OnlyTiled => Tiled(lay)
   /\ added = 0
   /\ priv = FALSE
